@@ -86,6 +86,7 @@ Definition E_DIM : N := 4.
 Definition E_COLL_NOTFOUND : N := 5.
 Definition E_COLL_EXISTS : N := 6.
 Definition E_BATCH : N := 7.
+Definition E_BATCHOP : N := 8.      (* BatchOperationError: an element failed after earlier ones were stored *)
 
 (* mutators of stored vectors (ids used by the translator's invalidation table) *)
 Definition M_STORE : N := 0.          (* store_embedding (also each element of batch_store_embeddings) *)
@@ -142,6 +143,10 @@ Variable inval : N -> bool.               (* does mutator m invalidate the colle
 Variable dim_guard : bool.                (* is the cached index consulted only for queries of its dimension *)
 Variable keep : N -> bool.
 Variable eps num den : N.
+Variable maxd : N.                        (* VectorEngineConfig::max_dimension; 0 = None *)
+
+(* `if let Some(max_dim) = self.config.max_dimension { if vector.len() > max_dim {..} }` *)
+Definition too_long (v : vec) : bool := negb (N.eqb maxd 0) && N.ltb maxd (N.of_nat (length v)).
 
 Definition stored (v : vec) : vec :=
   if use_sparse eps num den v then to_dense (from_dense keep v) else v.
@@ -167,6 +172,7 @@ Definition search_path (s : st) (c : N) (q : vec) (k : N) : path :=
   match q with
   | [] => PErr E_EMPTY
   | _ => if N.eqb k 0 then PErr E_TOPK
+         else if N.eqb c 0 && too_long q then PErr E_DIM      (* search_similar only *)
          else if zero_query q then PEmpty
          else match cache (cget s c) with
               | Some (e :: r) =>
@@ -186,6 +192,7 @@ Definition search_path_slot (slot : N -> N) (s : st) (c : N) (q : vec) (k : N) :
   match q with
   | [] => PErr E_EMPTY
   | _ => if N.eqb k 0 then PErr E_TOPK
+         else if N.eqb c 0 && too_long q then PErr E_DIM
          else if zero_query q then PEmpty
          else match cache (cget s (slot c)) with
               | Some (e :: r) =>
@@ -205,17 +212,28 @@ Definition search_metric_path (s : st) (q : vec) (k m : N) : path :=
          else PExact m (data (cget s 0))
   end.
 
+(* batch_store_embeddings below the parallel threshold: store_embedding per element, stop at the
+   first element that fails (the earlier ones stay stored) *)
+Fixpoint batch_put (s : st) (kvs : list (N * vec)) (n : N) : st * out :=
+  match kvs with
+  | [] => (s, RNum n)
+  | kv :: r => if too_long (snd kv) then (s, RErr E_BATCHOP)
+               else batch_put (put_vec s 0 M_STORE (fst kv) (snd kv)) r (n + 1)
+  end.
+
 Definition step (s : st) (o : op) : st * out :=
   match o with
   | OStore c k v =>
       match v with
       | [] => (s, RErr E_EMPTY)
-      | _ => (put_vec s c (if N.eqb c 0 then M_STORE else M_COLL_STORE) k v, RUnit)
+      | _ => if too_long v then (s, RErr E_DIM)
+             else (put_vec s c (if N.eqb c 0 then M_STORE else M_COLL_STORE) k v, RUnit)
       end
   | OStoreMeta c k v =>
       match v with
       | [] => (s, RErr E_EMPTY)
-      | _ => (put_vec s c (if N.eqb c 0 then M_STORE_META else M_COLL_STORE) k v, RUnit)
+      | _ => if too_long v then (s, RErr E_DIM)
+             else (put_vec s c (if N.eqb c 0 then M_STORE_META else M_COLL_STORE) k v, RUnit)
       end
   | ODelete c k =>
       let x := cget s c in
@@ -227,7 +245,7 @@ Definition step (s : st) (o : op) : st * out :=
       end
   | OBatchStore kvs =>
       if existsb (fun kv => match snd kv with [] => true | _ => false end) kvs then (s, RErr E_BATCH)
-      else (fold_left (fun s' kv => put_vec s' 0 M_STORE (fst kv) (snd kv)) kvs s, RNum (N.of_nat (length kvs)))
+      else batch_put s kvs 0
   | OBatchDelete ks =>
       let x := cget s 0 in
       let '(d, n) := fold_left (fun acc k => let '(d, n) := acc in
@@ -261,14 +279,19 @@ Definition step (s : st) (o : op) : st * out :=
    the *_with_metadata variants set it (the runs use tag = key mod 2). *)
 Definition tags := list (N * list (N * N)).
 Definition tget (t : tags) (c : N) : list (N * N) := match aget t c with Some x => x | None => [] end.
+Fixpoint stored_prefix (kvs : list (N * vec)) : list (N * vec) :=
+  match kvs with
+  | [] => []
+  | kv :: r => if too_long (snd kv) then [] else kv :: stored_prefix r
+  end.
 Definition tstep (s : st) (t : tags) (o : op) : tags :=
   match o with
-  | OStore c k (_ :: _) => aset t c (adel (tget t c) k)
-  | OStoreMeta c k (_ :: _) => aset t c (aset (tget t c) k (N.modulo k 2))
+  | OStore c k (x :: v) => if too_long (x :: v) then t else aset t c (adel (tget t c) k)
+  | OStoreMeta c k (x :: v) => if too_long (x :: v) then t else aset t c (aset (tget t c) k (N.modulo k 2))
   | ODelete c k => aset t c (adel (tget t c) k)
   | OBatchStore kvs =>
       if existsb (fun kv => match snd kv with [] => true | _ => false end) kvs then t
-      else aset t 0 (fold_left (fun x kv => adel x (fst kv)) kvs (tget t 0))
+      else aset t 0 (fold_left (fun x kv => adel x (fst kv)) (stored_prefix kvs) (tget t 0))
   | OBatchDelete ks => aset t 0 (fold_left (fun x k => adel x k) ks (tget t 0))
   | OClear => aset t 0 []
   | ODeleteColl c => if created (cget s c) then aset t c [] else t
@@ -295,6 +318,7 @@ Definition filtered_path (s : st) (t : tags) (c : N) (q : vec) (k b strat : N) :
   | [] => FErr E_EMPTY
   | _ =>
     if N.eqb k 0 then FErr E_TOPK
+    else if N.eqb c 0 && too_long q then FErr E_DIM      (* search_similar_filtered only *)
     else if zero_query q then FEmpty
     else
       let d := data (cget s c) in
